@@ -118,6 +118,7 @@ def gen_history(rng, n, nops):
     trows = [list(r) for r in rows]          # the generator's own running table (shapes the values only)
     extras, edecl = [], {}
     ops = []
+    used_kws = []
     for _ in range(nops):
         u = rng.random()
         malformed = rng.random() < 0.25
@@ -138,9 +139,13 @@ def gen_history(rng, n, nops):
             kws = [same_type_cond(rng, trows, n, extras) for _ in range(rng.choice([0, 1, 1, 2]))]
             if len(set(k for k, _ in kws)) < len(kws):
                 kws = kws[:1]
+            if used_kws and rng.random() < 0.35:
+                kws = rng.choice(used_kws)         # the SAME selection keywords as an earlier operation: they mean the rows that satisfy them NOW
             sel = [i for i in range(n) if py_holds(trows, i, kws, extras)]
             if not sel and n and rng.random() < 0.8:
                 kws, sel = [], list(range(n))
+            if kws:
+                used_kws.append(kws)
             nrow, ncol, kind = len(sel), len(cols), 'ok'
             colstr = ','.join(cols)
             if malformed:
@@ -174,7 +179,11 @@ def gen_history(rng, n, nops):
             kws = [same_type_cond(rng, trows, n, extras) for _ in range(rng.choice([0, 1, 2]))]
             if len(set(k for k, _ in kws)) < len(kws):
                 kws = kws[:1]
+            if used_kws and rng.random() < 0.35:
+                kws = rng.choice(used_kws)
             sel = [i for i in range(n) if py_holds(trows, i, kws, extras)]
+            if kws:
+                used_kws.append(kws)
             nrow, ncol, kind = len(sel), 3, 'ok'
             if malformed:
                 kind = rng.choice(['rows+1', 'rows-1', 'cols-1', 'cols+1'])
